@@ -43,6 +43,10 @@ Definition oracle_case (k : case) : bool :=
            | None => oh =? 500
            end
   | Client hs None obs => Bool.eqb (obs =? 0) ((200 <=? hs) && (hs <? 300))
-  | Client _ (Some _) _ => true
+  | Client _ (Some h) obs =>
+      (* a status header that names one of the defined failure codes in its canonical spelling decides the code,
+         whatever else is wrong with the reply *)
+      forallb (fun c => negb (String.eqb (status_header_code c) h) || (obs =? c))
+              [1;2;3;4;5;6;7;8;9;10;11;12;13;14;15;16]
   | EndToEnd c _ obs => obs =? (if c =? 0 then 13 else c)
   end.
